@@ -483,7 +483,21 @@ impl FileState {
 }
 extern "C" {
     fn geteuid() -> u32;
+    fn utimensat(dirfd: i32, path: *const std::os::raw::c_char, times: *const [i64; 4], flags: i32) -> i32;
 }
+
+/// The simulator owns the files' timestamps: before every invocation both files get the modification time the history
+/// assigns them (a logical clock), so that "newer than" is a function of the history and not of how fast the run goes.
+fn set_mtime(p: &Path, secs: i64) {
+    use std::os::unix::ffi::OsStrExt;
+    if let Ok(c) = std::ffi::CString::new(p.as_os_str().as_bytes()) {
+        let times: [i64; 4] = [secs, 0, secs, 0];
+        // AT_FDCWD = -100
+        unsafe { utimensat(-100, c.as_ptr(), &times, 0) };
+    }
+}
+
+const T0: i64 = 1_600_000_000;
 
 fn remove_any(p: &Path) {
     let _ = std::fs::remove_file(p);
@@ -534,9 +548,24 @@ fn exec_in(world: &World, sc: &Scenario, dir: &Path, stats: &mut Stats) -> Optio
     std::fs::write(&inp, &d).expect("write in.rs");
     let mut dirty = false; // a Mutate or a hard fault happened since the last successful write
     let mut input_broken: Option<String> = None;
+    // logical modification times (seconds): the input starts at T0; an edit moves it to the step's time, or - every third
+    // one - far into the past (a file restored with its old timestamp: cp -p, rsync -t, tar x); whatever touches the output
+    // file (a mutation, a write) gives it the step's time
+    let mut in_t: i64 = T0;
+    let mut out_t: i64 = T0 + 1;
 
     for (i, step) in sc.steps.iter().enumerate() {
         let stepno = i + 1;
+        match step {
+            Step::Edit { .. } => in_t = if stepno % 3 == 2 { T0 - 86_400 } else { T0 + 10 * stepno as i64 },
+            Step::BreakInput(_) => in_t = T0 + 10 * stepno as i64,
+            Step::Mutate(_) => out_t = T0 + 10 * stepno as i64,
+            Step::Write { .. } | Step::Check { .. } | Step::Print { .. } => {
+                set_mtime(&inp, in_t);
+                set_mtime(&outp, out_t);
+                if matches!(step, Step::Write { .. }) { out_t = T0 + 10 * stepno as i64 + 5; }
+            }
+        }
         match step {
             Step::Edit { source } => {
                 d = source.clone();
